@@ -14,6 +14,9 @@
 use std::cell::RefCell;
 use std::collections::HashMap;
 use std::io::{self, BufReader, Read, Write};
+#[cfg(wilfred_garden_verif)]
+use crate::verif_sim::shim::net::{TcpListener, TcpStream};
+#[cfg(not(wilfred_garden_verif))]
 use std::net::{TcpListener, TcpStream};
 use std::path::{Path, PathBuf};
 use std::rc::Rc;
@@ -1363,6 +1366,8 @@ fn serve_connection(
             }
         };
 
+        #[cfg(wilfred_garden_verif)]
+        verif_api::probe_request(&conn, &request);
         handle_message(&mut conn, &request);
     }
 
@@ -1370,6 +1375,8 @@ fn serve_connection(
     // makes each worker exit once its current eval finishes. That in
     // turn drops their `response_tx` clones, and once the last sender
     // is gone the writer thread exits.
+    #[cfg(wilfred_garden_verif)]
+    verif_api::probe_shutdown(&conn);
     for s in conn.sessions.values() {
         s.interrupted.store(true, Ordering::SeqCst);
     }
